@@ -67,7 +67,7 @@ def check_weights(model, case, check_mask_deficit=True, first=False):
         mask = case.opts.get('source_activity_mask')
         if kind == 'cacgmm' and mask is not None and \
                 case.opts.get('saliency') is None and check_mask_deficit \
-                and not first:
+                and not first and axes != [nd - 2]:
             # frames in which the mask declares every source inactive carry
             # an all-zero affiliation column, so the mean affiliation sums to
             # the fraction of frames with an active source
